@@ -207,3 +207,116 @@ M('c05-status-str-passthrough-without-space', 'C05', 'R7', 'falcon/util/misc.py'
   "    if isinstance(status, str) and ' ' in status:\n", "    if isinstance(status, str):\n")
 M('c05-status-table-typo', 'C05', 'R7', 'falcon/status_codes.py',
   "HTTP_208: Final[str] = '208 Already Reported'", "HTTP_208: Final[str] = '280 Already Reported'")
+
+# ------------------------------- R1 freshness: a sent event object is not modified afterwards
+# (wave 5, s5-c05-1: one body-event dict built before the stream loops, payload swapped per chunk)
+M2('c05-asgi-stream-chunk-event-reused', 'C05', 'R1', [
+    {'file': G, 'old': """            if hasattr(stream, 'read'):
+                try:
+                    while True:
+""", 'new': """            chunk_event: AsgiSendMsg = {
+                'type': 'http.response.body',
+                'body': b'',
+                'more_body': True,
+            }
+
+            if hasattr(stream, 'read'):
+                try:
+                    while True:
+"""},
+    {'file': G, 'old': """                            await send(
+                                {
+                                    'type': EventType.HTTP_RESPONSE_BODY,
+                                    # NOTE(kgriffs): Handle the case in which
+                                    #   data is None
+                                    'body': data or b'',
+                                    'more_body': True,
+                                }
+                            )
+""", 'new': """                            chunk_event['body'] = data or b''
+                            await send(chunk_event)
+"""},
+    {'file': G, 'old': """                        await send(
+                            {
+                                'type': EventType.HTTP_RESPONSE_BODY,
+                                'body': data,
+                                'more_body': True,
+                            }
+                        )
+""", 'new': """                        chunk_event['body'] = data
+                        await send(chunk_event)
+"""}])
+M2('c05-asgi-sse-event-dict-reused', 'C05', 'R1', [
+    {'file': G, 'old': """            async for event in sse_emitter:
+                if not event:
+""", 'new': """            sse_event = {'type': EventType.HTTP_RESPONSE_BODY, 'body': b'', 'more_body': True}
+            async for event in sse_emitter:
+                if not event:
+"""},
+    {'file': G, 'old': """                await send(
+                    {
+                        'type': EventType.HTTP_RESPONSE_BODY,
+                        'body': event.serialize(sse_handler),
+                        'more_body': True,
+                    }
+                )
+""", 'new': """                sse_event['body'] = event.serialize(sse_handler)
+                await send(sse_event)
+"""}])
+M2('c05-asgi-module-chunk-event-mutated', 'C05', 'R1', [
+    {'file': G, 'old': "_EVT_RESP_EOF: AsgiSendMsg = {'type': EventType.HTTP_RESPONSE_BODY}\n",
+     'new': "_EVT_RESP_EOF: AsgiSendMsg = {'type': EventType.HTTP_RESPONSE_BODY}\n"
+            "_EVT_RESP_CHUNK: AsgiSendMsg = {'type': EventType.HTTP_RESPONSE_BODY, 'body': b'', 'more_body': True}\n"},
+    {'file': G, 'old': """                        await send(
+                            {
+                                'type': EventType.HTTP_RESPONSE_BODY,
+                                'body': data,
+                                'more_body': True,
+                            }
+                        )
+""", 'new': """                        _EVT_RESP_CHUNK['body'] = data
+                        await send(_EVT_RESP_CHUNK)
+"""}], also=('C19',))   # C19 R3: a module-level table modified per request
+M('c05-asgi-data-event-cleared-after-send', 'C05', 'R1', G,
+  """            await send(
+                {
+                    # PERF(vytas): Inline the value of
+                    #   EventType.HTTP_RESPONSE_BODY in this critical code path.
+                    'type': 'http.response.body',
+                    'body': data,
+                }
+            )
+""", """            body_event = {'type': 'http.response.body', 'body': data}
+            await send(body_event)
+            body_event['body'] = b''
+""")
+
+# ------------------------ R4 by value: the sets the two status branches consult, whatever they are called
+# (wave 5, s5-c05-3: the WSGI typeless test consults the bodiless set)
+M('c05-wsgi-typeless-test-consults-bodiless-set', 'C05', 'R4', A,
+  "            if resp_status in _TYPELESS_STATUS_CODES:\n", "            if resp_status in _BODILESS_STATUS_CODES:\n")
+M('c05-asgi-typeless-test-only-204', 'C05', 'R4', G,
+  "            if resp_status in _TYPELESS_STATUS_CODES:\n", "            if resp_status == 204:\n")
+M('c05-wsgi-typeless-test-int-codes', 'C05', 'R4', A,
+  "            if resp_status in _TYPELESS_STATUS_CODES:\n", "            if resp_status in (204, 304):\n")
+M('c05-asgi-bodiless-test-inline-with-205', 'C05', 'R4', G,
+  "        if req.method == 'HEAD' or resp_status in _BODILESS_STATUS_CODES:\n",
+  "        if req.method == 'HEAD' or resp_status in (100, 101, 204, 205, 304):\n")
+
+# ------------------- R5: no computed Content-Length for a bodiless status answered to a non-HEAD request
+M('c05-wsgi-length-backfill-for-bodiless-status', 'C05', 'R5', A,
+  """                length is not None
+                and req.method == 'HEAD'
+                and resp_status not in _BODILESS_STATUS_CODES
+                and 'content-length' not in resp._headers
+""", """                length is not None
+                and 'content-length' not in resp._headers
+""")
+M('c05-asgi-length-backfill-for-bodiless-status', 'C05', 'R5', G,
+  """                (data is not None or not resp.stream)
+                and req.method == 'HEAD'
+                and resp_status not in _BODILESS_STATUS_CODES
+                and 'content-length' not in resp._headers
+""", """                (data is not None or not resp.stream)
+                and 'content-length' not in resp._headers
+""")
